@@ -408,6 +408,7 @@ func (s *Sim) handle(proc int, req *http.Request, body []byte) (int, interface{}
 	path := req.URL.Path
 	switch path {
 	case "/version":
+		s.logReq(proc, req, Key{Resource: "version"}, false, 200, body) // (a request like any other for the count)
 		return 200, map[string]interface{}{"major": "1", "minor": "32", "gitVersion": "v1.32.0"}
 	}
 	p := parsePath(path)
